@@ -22,6 +22,7 @@ from hypothesis import strategies as st
 
 from vlib import urlref, urlgrammar as G, lists as L, normgen as N
 from vlib.core import Campaign, hyp_campaign
+from vlib import fuzz as F
 from checks.c01 import _fix_edges
 
 PROPERTY = "C05"
@@ -86,7 +87,12 @@ def allowed_paths(segs, trailing, o):
             if low.endswith(b".amp.html"):
                 add.add(norm((sg[:-1] + (last[:-9] + last[-5:],), t)))
             if low.endswith(b".amp"):
-                add.add(norm((sg[:-1] + (last[:-4],), False)))
+                if last[:-4]:
+                    add.add(norm((sg[:-1] + (last[:-4],), False)))
+                else:
+                    # the segment is nothing but the suffix ('/a/.amp'): removing it leaves the parent with its slash
+                    add.add(norm((sg[:-1], True)))
+                    add.add(norm((sg[:-1], False)))
         S |= add
     if o["strip_index"]:
         add = set()
@@ -229,6 +235,9 @@ def eval_norm(case):
     # port
     ip = a["raw_port"] or None
     op = b["raw_port"] or None
+    if (ip is not None and not ip.isdigit()) or (op is not None and not op.isdigit()):
+        # bracket soup on which the reference splitter and urlsplit disagree about where the port is: outside the domain
+        return [r_ for r_ in res if r_[0] == "C05/unparseable-result"]
     if ip is not None and int(ip) not in (80, 443):
         if op is None or int(op) != int(ip):
             res.append(("C05/port", desc + ": non-default port %s -> %r" % (ip, op)))
@@ -434,8 +443,28 @@ def _deviations(acc, shard, nshards, seed, tier):
                 acc.check(case, True, _feature_flags(case) if idx % 13 == 0 else ())
 
 
+def _fuzz_norm(data):
+    """first two bytes choose the options (9 booleans + strip_fragment + quoted), the rest is the URL: *any* string — what cannot be parsed must
+    come back unchanged; what parses and carries no redirection goes through the component oracle"""
+    if len(data) < 3:
+        return None
+    bits = data[0] | (data[1] << 8)
+    u = F.text_from_bytes(data[2:])
+    o = {k: bool(bits >> i & 1) for i, k in enumerate(N.BOOL_OPTIONS)}
+    o["strip_fragment"] = [True, False, "except-routing"][(bits >> 9) % 3]
+    _, _, full = _effective_input(u, dict(o, infer_redirection=False))
+    if not unparseable(full) and F.parseable_url_without_redirection(data[2:]) is None:
+        return None   # parses, but outside the domain the component oracle is sound on (host soup, redirection respelling)
+    return {"kind": "norm", "url": u, "options": o, "quoted": bool(bits >> 11 & 1)}
+
+
+FUZZ_TARGETS = {"norm": (_fuzz_norm, lambda c: True, None)}
+
+
 def campaigns(tier, seed):
     cs = [
+        Campaign("coverage-guided", F.fuzz_campaign("norm", runs=(2500, 150000), max_len=80, dictionary=F.URL_DICT, corpus=["\xff\x0b" + c for c in F.URL_CORPUS]), "atheris",
+                 bounds="libFuzzer over 2 option bytes + a UTF-8 string <= 78 bytes: unparseable strings must come back unchanged, parseable ones (no redirection) go through the component oracle"),
         Campaign("panel-option-deviations", _deviations, "enumeration", exhaustive=True,
                  bounds="%d URLs (incl. %d unparseable) x (defaults + all single + all pairwise option deviations) x quoted" % (len(PANEL) + len(UNPARSEABLE), len(UNPARSEABLE))),
         Campaign("grammar", hyp_campaign(_strategy, lambda v: v, _nontrivial, _feature_flags, examples=(900, 20000)), "hypothesis",
